@@ -306,6 +306,14 @@ class KWay:
         head = ("idx", V, ("idx", P, ("var", A1)))
         mv = [n for n, vs in assigned.items() if vs == {head} and _read_before_write(scan_body, n)]
         Ms = [n for n, vs in assigned.items() if n not in mv and _read_before_write(scan_body, n)]
+        if not mv and len(Ms) == 1:
+            self.add("VIOLATED", "scan", scan.pos[1], "the scan records the selected head as the running minimum", "no loop-carried scalar is assigned the head value %s[%s[%s]] in the scan: the minimum that is emitted and compared is never updated" % (V, P, A1),
+                     {"inputs": "[[3], [1]] -> the stale initial value is emitted"})
+            raise Undecided("scan loop: the running minimum is never assigned")
+        if len(mv) == 1 and not Ms:
+            self.add("VIOLATED", "scan", scan.pos[1], "the scan marks that a head was selected", "the found-marker is never set inside the scan: every round looks like `nothing selected` and the loop ends at once",
+                     {"inputs": "[[1, 2]] -> []"})
+            raise Undecided("scan loop: the marker is never set")
         if len(mv) != 1 or len(Ms) != 1:
             raise Undecided("scan loop: carried minimum %s, marker %s" % (mv, Ms))
         mv, M = mv[0], Ms[0]
